@@ -461,8 +461,12 @@ impl<'b, 'a: 'b> FmtVisitor<'a> {
                     true
                 }
             }
-            // Module is not inline, but should be skipped.
-            ast::ItemKind::Mod(..) if contains_skip(&item.attrs) => false,
+            // Module is not inline, but should be skipped: emit the declaration as it is (a
+            // caller that moves `last_pos` past the item would otherwise drop it).
+            ast::ItemKind::Mod(..) if contains_skip(&item.attrs) => {
+                self.push_skipped_with_span(item.attrs.as_slice(), item.span(), item.span());
+                false
+            }
             // Module is not inline and should not be skipped. We want
             // to process only the attributes in the current file.
             ast::ItemKind::Mod(..) => {
